@@ -792,6 +792,12 @@ Proof.
   - now apply udispatch_sound.
   - now apply udispatch_complete.
 Qed.
+Lemma validated_usable {Ty} (usable : V -> bool) (r : option (Ty * V)) t v :
+  validated V usable r = Some (t, v) -> r = Some (t, v) /\ usable v = true.
+Proof.
+  unfold validated. destruct r as [[t0 v0] |]; [| discriminate].
+  destruct (usable v0) eqn:E; [| discriminate]. intros [= <- <-]. auto.
+Qed.
 End DispatchFacts.
 
 (* ------------------------------------------------------------------------------------------- *)
